@@ -527,6 +527,10 @@ func TestC06Payload(t *testing.T) {
 		)
 
 		labels := []string{}
+		if len(ts.Fields()) > 64 {
+			labels = append(labels, "fields>64")
+		}
+
 		if ts.Struct {
 			labels = append(labels, "impl:struct")
 		} else {
@@ -639,6 +643,10 @@ func TestC06Payload(t *testing.T) {
 		if err != nil {
 			if res != nil {
 				t.Fatalf("C06 violated: both a resource and an error %v\ncase: %s", err, pc)
+			}
+
+			if len(ts.Fields()) > 64 {
+				labels = append(labels, "fields>64:rejected")
 			}
 
 			r.Case(pc.String(), nontrivial, append(labels, "rejected")...)
